@@ -669,6 +669,19 @@ class DefaultCodec(Codec):
                         from_parent=True,
                     )
 
+            # A partition that was read back from storage carries the entries it inherited
+            # from its own merge parents in its index (the parent objects are gone): pass
+            # them on, or a function returning such a partition would store only part of it
+            if isinstance(obj, DefaultCodec.PicklePartition):
+                # noinspection PyProtectedMember
+                for k, v in obj._index.items():
+                    if v.from_parent:
+                        # noinspection PyProtectedMember
+                        data_source.reference(
+                            obj._data_source, v.content_key, v.content_key
+                        )
+                        index[k] = v
+
             # Layer current keys on top of parent's keys
             output_keys = dict()
             keys = obj.list_keys(_include_merge_parent=False)
